@@ -90,11 +90,13 @@ class Overlay:
                 opts = {}
                 rest = []
                 for p in parts[1:]:
-                    if '=' in p and p.split('=')[0] in ('members', 'exclude'):
+                    if p.startswith('as='):
+                        opts['as'] = p[3:]
+                    elif '=' in p and p.split('=')[0] in ('members', 'exclude'):
                         k, v = p.split('=', 1)
                         opts[k] = v.split(',')
-                    elif p in ('strip_derives',):
-                        opts[p] = True
+                    elif p in ('strip_derives', 'noderive'):
+                        opts['noderive'] = True
                     else:
                         rest.append(p)
                 self.items.append(dict(file=rest[0], kind=rest[1], name=' '.join(rest[2:]), **opts))
@@ -142,7 +144,7 @@ class Overlay:
 # ---------------------------------------------------------------- rewrites
 
 
-def r5_attrs(attrs: str, log, where):
+def r5_attrs(attrs: str, log, where, noderive=False):
     """Trim attributes / doc comments in front of an item."""
     out = []
     msk = rs.mask(attrs)
@@ -161,8 +163,8 @@ def r5_attrs(attrs: str, log, where):
         inner = a[2:-1].strip()
         if inner.startswith('derive'):
             names = [x.strip() for x in inner[inner.index('(') + 1:inner.rindex(')')].split(',') if x.strip()]
-            keep = [x for x in names if x not in DROP_DERIVES]
-            dropped = [x for x in names if x in DROP_DERIVES]
+            keep = [] if noderive else [x for x in names if x not in DROP_DERIVES]
+            dropped = names if noderive else [x for x in names if x in DROP_DERIVES]
             if dropped:
                 log.append(dict(rule='R5', where=where, edit='derive list drops ' + ','.join(dropped)))
             if keep:
@@ -519,7 +521,7 @@ def build(overlay_path: str, repo: str, out_path: str):
         where = '%s:%d %s %s' % (spec['file'], it.lines[0], spec['kind'], spec['name'])
         chunks.append('// ---- %s\n' % where)
         if spec['kind'] in ('struct', 'enum', 'type', 'const'):
-            attrs = r5_attrs(it.attrs, log, where)
+            attrs = r5_attrs(it.attrs, log, where, noderive=spec.get('noderive', False))
             body_txt = src[it.head_start:it.end]
             if spec['kind'] in ('struct', 'enum') and 'pub(crate)' in rs.mask(body_txt):
                 # R7: Verus cannot give field accessors of a pub(crate) datatype a visibility; widen to pub
@@ -540,7 +542,7 @@ def build(overlay_path: str, repo: str, out_path: str):
             chunks.append(attrs + '/*@B %s %d %d*/' % (spec['file'], it.head_start, it.end) + t + '/*@E*/\n')
             functions.append(dict(name=spec['name'], file=spec['file'], lines=list(it.lines), contract=spec['name'] in ov.contracts))
         elif spec['kind'] == 'impl':
-            tyname = spec['name'].split()[-1]
+            tyname = spec.get('as') or spec['name'].split()[-1]
             members = rs.impl_members(it)
             want = spec.get('members', ['*'])
             excl = set(spec.get('exclude', []))
